@@ -80,12 +80,15 @@ ASSUMPTIONS = [
     "setter leaves behind is the subject of C06/C18 (DESIGN section 5 row 2), not of C19; a move to the agent's own "
     "current cell is not performed",
     "user attributes in the instance __dict__ of cells are observed (kept by Network/Voronoi cells, dropped by grid cells: "
-    "documented behaviour, C19_user_attrs_carried); hand-made connections (Cell.connect after construction) are never "
-    "carried (C19_handmade_connections_not_carried) and are not generated",
+    "documented behaviour, C19_user_attrs_carried); hand-made connections (Cell.connect after construction, keys ('x', n)) "
+    "are generated, followed by move_relative, and are never carried by a copy (C19_handmade_connections_not_carried): "
+    "they are observed separately from the geometry's connections and excluded from the faithful comparison",
     "a copy of a SPACE reaches the model object only through an agent standing on the grid; when no agent does, the "
     "program gives the copied space a new empty model and the off-grid agents of the source are not expected on the copy",
-    "FixedAgent.remove() (which leaves the agent's cell pointer set, a C06 matter) is not performed; a removed agent keeps "
-    "its label in the program's table and can be placed again",
+    "FixedAgent.remove() is performed: the agent is deregistered and taken off the cell's list while its _mesa_cell keeps "
+    "pointing to the cell (documented fixme in the source); such a ghost pointer is observed, exempt from the wiring flag, "
+    "makes every later placement of that agent fail, and is not carried by a copy (the agent is unreachable); a removed "
+    "CellAgent keeps its label in the program's table and can be placed again",
     "an agent-set side whose model ever created an agent cannot be forgotten: Agent._ids (class-level, keyed by model) "
     "keeps the model, whose registry keeps the agents",
     "values written to the bool layer 'empty' are 0/1; extra layers are int layers with small int values",
